@@ -48,15 +48,20 @@ def build_server():
 
 
 def build_harness(log=None):
-    """(Re)build the harness against /repo's current working tree with hooks on."""
+    """(Re)build the harness against /repo's current working tree with hooks on.
+
+    The harness source is copied into the build directory first and go.mod / go.sum are written there, so that
+    concurrent runs with different VERIF_REPO / VERIF_BUILD never share a go.mod."""
     os.makedirs(BUILD, exist_ok=True)
-    shutil.copyfile(os.path.join(HARNESS, "go.mod.tmpl"), os.path.join(HARNESS, "go.mod"))
-    txt = open(os.path.join(HARNESS, "go.mod")).read().replace("=> /repo", "=> " + REPO)
-    open(os.path.join(HARNESS, "go.mod"), "w").write(txt)
-    shutil.copyfile(os.path.join(REPO, "go.sum"), os.path.join(HARNESS, "go.sum"))
+    src = os.path.join(BUILD, "src")
+    shutil.rmtree(src, ignore_errors=True)
+    shutil.copytree(HARNESS, src, ignore=shutil.ignore_patterns("go.mod", "go.sum", "zz_*"))
+    txt = open(os.path.join(HARNESS, "go.mod.tmpl")).read().replace("=> /repo", "=> " + REPO)
+    open(os.path.join(src, "go.mod"), "w").write(txt)
+    shutil.copyfile(os.path.join(REPO, "go.sum"), os.path.join(src, "go.sum"))
     t0 = time.time()
     p = subprocess.run(["go", "build", "-tags", "verif", "-o", BIN, "./cmd/t38conf"],
-                       cwd=HARNESS, env=goenv(), stdout=subprocess.PIPE, stderr=subprocess.STDOUT, text=True)
+                       cwd=src, env=goenv(), stdout=subprocess.PIPE, stderr=subprocess.STDOUT, text=True)
     if p.returncode != 0:
         raise Infra("harness build failed (does /repo compile with -tags verif?):\n" + p.stdout[-4000:])
     return time.time() - t0
@@ -74,7 +79,7 @@ class Ctx:
         self.known = []           # text
         self.notes = []
         self.tlc_runs = []        # dicts with stats
-        self.replaydir = os.path.join(VERIF, "replays", pid)
+        self.replaydir = os.path.join(os.environ.get("VERIF_OUT", VERIF), "replays", pid)
         self.cov = {}
 
     @property
@@ -257,7 +262,8 @@ def report(ctx, name, text, payload):
 
 
 def write_evidence(ctx, level, coverage, assumptions):
-    os.makedirs(os.path.join(VERIF, "evidence"), exist_ok=True)
+    evdir = os.path.join(os.environ.get("VERIF_OUT", VERIF), "evidence")
+    os.makedirs(evdir, exist_ok=True)
     ev = {
         "property_id": ctx.pid,
         "tier": ctx.tier,
@@ -271,7 +277,7 @@ def write_evidence(ctx, level, coverage, assumptions):
         "tlc_runs": ctx.tlc_runs,
         "notes": ctx.notes,
     }
-    with open(os.path.join(VERIF, "evidence", ctx.pid + ".json"), "w") as f:
+    with open(os.path.join(evdir, ctx.pid + ".json"), "w") as f:
         json.dump(ev, f, indent=1, sort_keys=True)
 
 
